@@ -6,5 +6,5 @@ for p in $PROPS; do ./run_matrix.sh quick 10 "$p-"; done
 : > benign/RESULTS.mini.txt
 for g in A B C D E F G H I J K L M N; do ./run_benign.sh $g 6; done
 ./run_thorough_all.sh
-SEEDS="7 8 9" ./run_seeds_all.sh
+SEEDS="${SEEDS:-7 8 9}" ./run_seeds_all.sh
 echo MINI-RUN-DONE
